@@ -527,7 +527,7 @@ pub fn op_strategy(p: &Profile) -> BoxedStrategy<Op> {
     add(w.tight_shrink, (slot(), any::<bool>()).prop_map(|(s, over)| Op::TightShrink { s, over }).boxed());
     add(w.remove_old, (slot(), 0u8..5, prop_oneof![3 => Just(0u8), 2 => 1u8..12]).prop_map(|(s, how, keep)| Op::RemoveOld { s, how, keep }).boxed());
     add(w.entry, (slot(), keysel(), chain()).prop_map(|(s, k, chain)| Op::Entry { s, k, chain }).boxed());
-    add(w.rawmut, (slot(), keysel(), rawhow(), chain()).prop_map(|(s, k, how, chain)| Op::RawEntryMut { s, k, how, chain }).boxed());
+    add(w.rawmut, (slot(), keysel(), rawhow(), chain(), prop::bool::weighted(0.2)).prop_map(|(s, k, how, chain, probe_other)| Op::RawEntryMut { s, k, how, chain, probe_other }).boxed());
     add(w.raw, (slot(), keysel(), rawhow()).prop_map(|(s, k, how)| Op::RawEntry { s, k, how }).boxed());
     add(
         w.iter,
